@@ -1,6 +1,8 @@
 (** C01 — grouped aggregation reports the true per-group statistics. *)
 From Coq Require Import List ZArith Lia Bool Permutation.
-From AG Require Import Str F64 Value Json Expr Ops Pipeline Value_proofs Agg_proofs Sort_proofs.
+From AG Require Import Str F64 Value Json Expr Ops Pipeline Value_proofs Agg_proofs Sort_proofs Extremum_proofs.
+From Coq Require Import Floats.SpecFloat.
+From Flocq Require Import IEEE754.BinarySingleNaN.
 Import ListNotations.
 Open Scope Z_scope.
 
@@ -72,6 +74,30 @@ Theorem C01_min : forall e rows,
   Ok (minmax_emit true m (minZ (int_args e rows))).
 Proof. intros. apply min_emit. Qed.
 Print Assumptions C01_min.
+
+(** the same without the fold: the cell is ONE OF the numeric arguments ([candidates]: the integers as
+    they are, the other numbers as doubles) and no argument is below it.  The hypothesis names what the
+    accumulator cannot tell apart: NaN (skipped) and the initial value +inf. *)
+Theorem C01_min_is_least : forall e rows v,
+  Forall (fun f => valid_binary prec emax f = true /\ f_is_nan f = false /\ f <> f_inf)
+         (float_args e rows) ->
+  acc_emit (fold_left acc_step rows (acc_empty (FMin e))) = Ok v ->
+  candidates e rows <> [] ->
+  In v (candidates e rows) /\ (forall x, In x (candidates e rows) -> vcmp v x <> Gt).
+Proof. exact min_is_least. Qed.
+Print Assumptions C01_min_is_least.
+Theorem C01_max_is_greatest : forall e rows v,
+  Forall (fun f => valid_binary prec emax f = true /\ f_is_nan f = false /\ f <> f_neg_inf)
+         (float_args e rows) ->
+  acc_emit (fold_left acc_step rows (acc_empty (FMax e))) = Ok v ->
+  candidates e rows <> [] ->
+  In v (candidates e rows) /\ (forall x, In x (candidates e rows) -> vcmp v x <> Lt).
+Proof. exact max_is_greatest. Qed.
+Print Assumptions C01_max_is_greatest.
+Example C01_min_max_beyond_2p53 :
+  acc_emit (fold_left acc_step [ex_row (VInt 9007199254740995); ex_row (VInt 9007199254740993)] (acc_empty (FMin ex_e))) = Ok (VInt 9007199254740993) /\
+  acc_emit (fold_left acc_step [ex_row (VInt 9007199254740995); ex_row (VInt 9007199254740993)] (acc_empty (FMax ex_e))) = Ok (VInt 9007199254740995).
+Proof. split; vm_compute; reflexivity. Qed.
 
 Theorem C01_max : forall e rows,
   acc_emit (fold_left acc_step rows (acc_empty (FMax e))) =
